@@ -152,9 +152,12 @@ static int icmd_pos;		/* icmd[] position */
 /* read s before reading from the terminal */
 void term_push(char *s, int n)
 {
-	n = MIN(n, sizeof(ibuf) - ibuf_cnt);
-	memcpy(ibuf + ibuf_cnt, s, n);
-	ibuf_cnt += n;
+	int rest = ibuf_pos < ibuf_cnt ? ibuf_cnt - ibuf_pos : 0;	/* pushed but not yet read */
+	n = MIN(n, sizeof(ibuf) - rest);
+	memmove(ibuf + n, ibuf + ibuf_pos, rest);
+	memcpy(ibuf, s, n);
+	ibuf_pos = 0;
+	ibuf_cnt = n + rest;
 }
 
 /* return a static buffer containing inputs read since the last term_cmd() */
